@@ -62,6 +62,18 @@ func directed() []struct {
 			U(7, 2, 6, 2, 6, bal, -1), H, Q("Chain", 6, 8), Q("GetSlot", 3), Q("GetSlot", 6)}},
 		{"directed-prune-gap-sink-fails-early", ini(4, false), []Op{B(1, 2, 1, 0, 0), B(2, 3, 2, 0, 0), B(3, 4, 5, 1, 1), B(4, 5, 6, 1, 1), A(0, 5, 6), H,
 			U(5, 1, 3, 1, 3, bal, 2), H, Q("FindHead", 3, 2), Q("FindHead", 2, 2), Q("GetSlot", 2), Q("GetSlot", 1), Q("Chain", 3, 4), A(1, 5, 6), H}},
+		// finalized AND justified checkpoints on empty slots whose roots have their blocks hanging off a lower node (reported against
+		// the first 16 repairs): root 2 has its block at slot 1, the epoch-1 start slot 4 is empty; root 3 at 6, epoch-2 start 8 empty
+		{"directed-gap-fin", ini(4, false), []Op{B(1, 2, 1, 0, 0), B(2, 3, 6, 0, 0), B(3, 4, 9, 2, 1), A(0, 4, 9), A(1, 4, 9), H,
+			U(4, 2, 3, 1, 2, bal, -1), H, Q("Fin"), Q("Just"), Q("Pin"), Q("GetSlot", 1), Q("GetSlot", 2), Q("Chain", 3, 8), Q("FindHead", 2, 4),
+			Q("CanonAt", 2, 7, 1), B(4, 5, 10, 2, 1), A(2, 5, 10), H, SR(2, 4, 1, 0, 2, 0)}},
+		{"directed-gap-pin", ini(4, false), []Op{B(1, 2, 1, 0, 0), B(2, 3, 6, 0, 0), B(3, 4, 9, 0, 0), A(0, 4, 9), H, Q("SetPin", 2, 3), H,
+			Q("FindHead", 2, 4), Q("FindHead", 3, 8), Q("Chain", 2, 3), Q("CanonAt", 2, 5, 0), SR(2, 3, 1, 0, 2, 0), Q("FindHead", 2, 6), B(2, 6, 5, 0, 0), A(1, 6, 5), A(2, 6, 5), H,
+			Q("FindHead", 2, 5), Q("FindHead", 2, 4)}},
+		{"directed-gap-fin-fork", ini(4, false), []Op{B(1, 2, 1, 0, 0), B(2, 6, 3, 2, 1), B(2, 3, 6, 0, 0), B(3, 4, 9, 2, 1), A(0, 6, 3), A(1, 6, 3), A(2, 4, 9), H,
+			Q("FindHead", 2, 4), Q("FindHead", 2, 2), U(4, 2, 3, 1, 2, bal, -1), H, Q("GetSlot", 6), Q("Fin"), Q("Chain", 3, 8), A(0, 4, 9), H}},
+		{"directed-gap-fin-sink-fails", ini(4, false), []Op{B(1, 2, 1, 0, 0), B(2, 3, 6, 0, 0), B(3, 4, 9, 2, 1), A(0, 4, 9), A(1, 4, 9), H,
+			U(4, 2, 3, 1, 2, bal, 3), H, Q("FindHead", 2, 4), Q("FindHead", 3, 8), Q("FindHead", 2, 3), Q("GetSlot", 2), Q("Fin"), B(4, 5, 10, 2, 1), A(2, 5, 10), H}},
 		{"directed-nonviable-children", ini(4, false), []Op{B(1, 2, 1, 1, 0), B(2, 3, 2, 2, 0), B(2, 4, 2, 2, 0), A(0, 3, 2), A(1, 3, 2), H, Q("FindHead", 2, 1), S(4, 4, 2, 0), A(0, 4, 4), A(1, 4, 4), A(2, 4, 4),
 			U(1, 1, 2, 0, 1, bal, -1), H, Q("FindHead", 2, 1), Q("Chain", 2, 1), Q("FindHead", 4, 2)}},
 		{"directed-unknown-vote-target", ini(4, false), cat(chain, []Op{A(0, 2, 1), H, A(0, 6, 4), H, A(1, 3, 2), H, A(2, 3, 2), H, A(0, 6, 5), H, A(0, 6, 9), H, S(6, 9, 0, 0), A(0, 6, 9), H})},
@@ -121,6 +133,12 @@ func Run(e *Env, mode string) error {
 	e.Extra["x_successful_prunes"] = tot["prunes_ok"]
 	e.Extra["x_failed_sink_prunes"] = tot["prunes_failed"]
 	e.Extra["x_nodes_reported_to_sink"] = tot["prune_calls"]
+	e.Extra["x_updates_finalizing_a_gap_slot_node_above_its_roots_first_slot"] = tot["gap_anchor_updates"]
+	e.Extra["x_heads_from_a_gap_slot_node_above_its_roots_first_slot"] = tot["gap_start_heads"]
+	if tot["gap_anchor_updates"] == 0 || tot["gap_start_heads"] == 0 {
+		return fmt.Errorf("generator guard: this run holds no update finalizing an empty-slot node whose root has blocks hanging off a lower node (%d) or no head from such a node (%d)",
+			tot["gap_anchor_updates"], tot["gap_start_heads"])
+	}
 	e.Extra["x_calls_that_did_not_return"] = tot["noreturn"]
 	e.Extra["x_calls_that_panicked"] = tot["panic"]
 	e.Extra["x_operation_counts"] = fmt.Sprint(tot)
